@@ -122,7 +122,16 @@ def decode(d):
         ua = d.choice(UNITS)
         ub = d.choice([u for u in UNITS if family(u) == family(ua)]) if d.chance(6, 8) else d.choice(UNITS)
         op = d.choice(OPS)
-        return {"kind": "binop", "op": op, "a": amount_text(d) + ua, "b": amount_text(d) + ub}
+        case = {"kind": "binop", "op": op, "a": amount_text(d) + ua, "b": amount_text(d) + ub}
+        if d.chance(1, 3):
+            # one operand is not a Length object but what a Length is made from: its text, or a plain number
+            which = d.below(2)
+            unit = (ua, ub)[which]
+            forms = ["length", "length"]
+            # (a Length divided by a plain number is scaling, not the ratio of two lengths: numbers are not used with /)
+            forms[which] = "number" if unit == "" and op != "/" and d.bool() else "text"
+            case["forms"] = forms
+        return case
     if kind == "value":
         u = d.choice(UNITS + ["%", "%", "%"])
         w, h = gen.loguniform(d, 0.0, 3.0, signed=False), gen.loguniform(d, 0.0, 3.0, signed=False)
@@ -312,20 +321,30 @@ def check_binop(case):
     same_family = family(ua) == family(ub)
     a, b = se.Length(case["a"]), se.Length(case["b"])
     sa, sb = (a.amount, a.units), (b.amount, b.units)
-    what = "Length(%r) %s Length(%r)" % (case["a"], op, case["b"])
+    forms = case.get("forms") or ["length", "length"]
+    operand = lambda obj, text, x, form: obj if form == "length" else text if form == "text" else float(x)
+    oa, ob = operand(a, case["a"], xa, forms[0]), operand(b, case["b"], xb, forms[1])
+    spell = lambda text, x, form: "Length(%r)" % text if form == "length" else repr(text) if form == "text" else repr(float(x))
+    what = "%s %s %s" % (spell(case["a"], xa, forms[0]), op, spell(case["b"], xb, forms[1]))
+    if forms != ["length", "length"]:
+        o.label("operand-form:%s-%s" % tuple(forms))
     try:
         if op == "+":
-            res = a + b
+            res = oa + ob
         elif op == "-":
-            res = a - b
+            res = oa - ob
         elif op == "/":
-            res = a / b
+            res = oa / ob
         elif op == "<":
-            res = a < b
+            res = oa < ob
         elif op == "<=":
-            res = a <= b
+            res = oa <= ob
         else:
-            res = a == b
+            res = oa == ob
+    except TypeError:
+        if forms == ["length", "length"]:
+            raise
+        return o.excluded("operand form %s-%s is not supported by the operator %s" % (forms[0], forms[1], op))
     except ValueError:
         if same_family:
             return o.violation("raises-within-family:%s" % op, "%s raised ValueError" % what)
